@@ -163,6 +163,15 @@ static void get_last_node(
  * make a list of nodes connected by their 'mid' pointer. This list matches the provided key
  * and starts at **begin and ends at **end.
  * */
+static void free_mid_chain(CC_TSTTable *table, CC_TSTTableNode *node)
+{
+    while (node) {
+        CC_TSTTableNode *next = node->mid;
+        table->mem_free(node);
+        node = next;
+    }
+}
+
 static enum cc_stat make_mid_subtree(
     CC_TSTTable      *table,
     CC_TSTTableNode **begin,
@@ -181,8 +190,10 @@ static enum cc_stat make_mid_subtree(
     for (size_t i = 1; i < key_len; i++) {
         node->mid = table->mem_calloc(1, sizeof(CC_TSTTableNode));
 
-        if (!node->mid)
+        if (!node->mid) {
+            free_mid_chain(table, *begin);
             return CC_ERR_ALLOC;
+        }
 
         node->mid->parent = node;
         node->mid->c      = key[i];
@@ -245,8 +256,10 @@ enum cc_stat cc_tsttable_add(CC_TSTTable *table, char *key, void *val)
     begin->parent = last_parent;
     end->data     = table->mem_alloc(sizeof(CC_TSTTableEntry));
 
-    if (!end->data)
+    if (!end->data) {
+        free_mid_chain(table, begin);
         return CC_ERR_ALLOC;
+    }
 
     table->size      += 1;
     end->data->key    = key;
